@@ -50,6 +50,7 @@ func Run(k *report.Check) {
 	k.Rule = "cluster simulation (real Job, operators, source runners; one storage namespace for job files and DKV files): W in {1,2} workers process two splits of 8+3 records; a savepoint is requested when s event batches have been delivered (s in {0,1,2,4,7}), with the periodic checkpoint tick before it, racing with it (tick first, savepoint while the checkpoint is pending) or absent; operator acknowledgements in either order; RPCs are delivered oldest first plus at most `bound` out-of-order deliveries. Then every file outside the savepoints directory (all DKV files, all job checkpoints) is deleted and a new job is started from the savepoint URI with W' in {1,2} fresh workers. Oracle: the savepoint folds into a pending checkpoint (no second StartCheckpoint round, one id), the original job still finishes with the failure-free state, the restored job's handlers never see a record twice nor miss an earlier one, its final state read back from its DKV checkpoints equals the failure-free fold, and its source positions equal the savepoint's. A second part runs with memtables of a few entries (the savepoints then consist of table files) and lets the restored job take a savepoint of its own, from which a third job with W'' workers is started after another wipe. non-trivial = distinct (W, W', request point, tick relation, ack order) runs in which the restored job re-read input past the savepoint and was handed non-empty state"
 	k.Assumptions = []string{"in-memory storage namespace standing for a shared directory / bucket", "interleavings inside components are the component checks' subject"}
 	k.Budget(120, 1200)
+	k.Parts(2)
 	b := k.Pick(1, 2)
 	k.ExploreSched("savepoint-chain/tables", mc.Config{Bound: 0, RecycleAfter: 1500, Deadline: k.Within(0.3)}, params{chain: true}, body)
 	k.ExploreSched(fmt.Sprintf("savepoint/deviations<=%d", b), mc.Config{Bound: b, RecycleAfter: 1500}, params{bound: b}, body)
